@@ -47,7 +47,13 @@ pub struct Case {
     /// the server runs with --duplicate-packets N
     #[serde(default)]
     pub server_dup: u8,
+    /// index into NAMES (the file's basename)
+    #[serde(default)]
+    pub name_idx: u8,
 }
+
+/// basenames: lower case, upper and mixed case, several dots, no extension, digits/dash/underscore
+const NAMES: [&str; 7] = ["f.bin", "README.md", "Image-V2.BIN", "noext", "x.tar.gz", "UPPER", "MiXeD_case-1.Dat"];
 
 fn run_client(args: &[String], cwd: &Path, limit: Duration) -> Result<(String, String), String> {
     let exe = wire::bindir().join("tftpc");
@@ -94,28 +100,29 @@ fn run_case(dir: &Path, c: &Case) -> Result<(), (String, String)> {
         std::fs::create_dir_all(d.join("sub")).unwrap();
     }
     let data = content(c.seed, c.len);
+    let base = NAMES[c.name_idx as usize % NAMES.len()];
     let rel_unix = match c.style {
-        Style::Plain => "f.bin".to_string(),
-        _ => "sub/f.bin".to_string(),
+        Style::Plain => base.to_string(),
+        _ => format!("sub/{}", base),
     };
     let rel_arg = match c.style {
-        Style::Plain => "f.bin".to_string(),
-        Style::Nested => "sub/f.bin".to_string(),
-        Style::Windows => "sub\\f.bin".to_string(),
+        Style::Plain => base.to_string(),
+        Style::Nested => format!("sub/{}", base),
+        Style::Windows => format!("sub\\{}", base),
     };
     let stale = c.stale_dest && c.refusal == Refusal::None;
     if stale {
         let old = vec![0x55u8; data.len() + 3000];
         if c.upload {
-            std::fs::write(recv.join("f.bin"), &old).unwrap();
+            std::fs::write(recv.join(base), &old).unwrap();
         } else {
-            std::fs::write(cout.join("f.bin"), &old).unwrap();
+            std::fs::write(cout.join(base), &old).unwrap();
         }
     }
     if c.upload {
         std::fs::write(cdir.join(&rel_unix), &data).unwrap();
         if c.refusal == Refusal::Exists {
-            std::fs::write(recv.join("f.bin"), b"already here").unwrap();
+            std::fs::write(recv.join(base), b"already here").unwrap();
         }
     } else if c.refusal != Refusal::Missing {
         std::fs::write(send.join(&rel_unix), &data).unwrap();
@@ -173,10 +180,10 @@ fn run_case(dir: &Path, c: &Case) -> Result<(), (String, String)> {
                     return Err(("file-after-refusal".into(), format!("{}: the server refused (missing file) but the client created {:?}", what, snap.keys().collect::<Vec<_>>())));
                 }
             } else if c.refusal == Refusal::Exists {
-                if std::fs::read(recv.join("f.bin")).unwrap_or_default() != b"already here" {
+                if std::fs::read(recv.join(base)).unwrap_or_default() != b"already here" {
                     return Err(("refused-upload-changed-file".into(), format!("{}: upload refused (exists) but the server's file changed", what)));
                 }
-            } else if recv.join("f.bin").exists() {
+            } else if recv.join(base).exists() {
                 return Err(("refused-upload-created-file".into(), format!("{}: read-only server stored an upload", what)));
             }
             // "reports the error": something must be said on stderr (the wording is not prescribed)
@@ -186,16 +193,16 @@ fn run_case(dir: &Path, c: &Case) -> Result<(), (String, String)> {
             return Ok(());
         }
         if c.upload {
-            let stored = std::fs::read(recv.join("f.bin")).ok();
+            let stored = std::fs::read(recv.join(base)).ok();
             if stored.as_deref() != Some(&data[..]) {
                 let elsewhere: Vec<String> = wire::snapshot(&recv).keys().cloned().collect();
-                return Err(("upload-mismatch".into(), format!("{}: expected {} bytes at <receive dir>/f.bin, found {:?} bytes; receive dir holds {:?}; client stderr {:?}; server stderr {}", what, data.len(), stored.map(|s| s.len()), elsewhere, err, srv.stderr_tail())));
+                return Err(("upload-mismatch".into(), format!("{}: expected {} bytes at <receive dir>/<basename>, found {:?} bytes; receive dir holds {:?}; client stderr {:?}; server stderr {}", what, data.len(), stored.map(|s| s.len()), elsewhere, err, srv.stderr_tail())));
             }
         } else {
-            let got = std::fs::read(cout.join("f.bin")).ok();
+            let got = std::fs::read(cout.join(base)).ok();
             if got.as_deref() != Some(&data[..]) {
                 let elsewhere: Vec<String> = wire::snapshot(&cdir).keys().cloned().collect();
-                return Err(("download-mismatch".into(), format!("{}: expected {} bytes at <receive-directory>/f.bin, found {:?} bytes; client dir holds {:?}; client stderr {:?}; server stderr {}", what, data.len(), got.map(|s| s.len()), elsewhere, err, srv.stderr_tail())));
+                return Err(("download-mismatch".into(), format!("{}: expected {} bytes at <receive-directory>/<basename>, found {:?} bytes; client dir holds {:?}; client stderr {:?}; server stderr {}", what, data.len(), got.map(|s| s.len()), elsewhere, err, srv.stderr_tail())));
             }
         }
         Ok(())
@@ -224,6 +231,7 @@ pub fn judge(dir: &Path, c: &Case, obs: &mut Obs) -> Judge {
     obs.class_if(blocks > 65535, "beyond-65535-blocks");
     obs.class_if(c.stale_dest && c.refusal == Refusal::None, "older-longer-file-at-destination");
     obs.class_if(c.server_dup > 0, "server-duplicate-packets");
+    obs.class_if(NAMES[c.name_idx as usize % NAMES.len()].chars().any(|ch| ch.is_ascii_uppercase()), "upper-case-in-name");
     obs.class_if(c.len % c.blk == 0 && c.len > 0, "exact-multiple");
     obs.nontrivial = c.blk != 512 || c.ws != 1 || blocks >= 2;
     let r = match run_case(dir, c) {
@@ -311,6 +319,7 @@ pub fn strategy() -> BoxedStrategy<Case> {
                 // one case in five: the server repeats every data-phase packet (only with short transfers: 1 ms per copy)
                 // (254 copies: the server is busy for a quarter of a second per packet - a slow but loss-free peer for the client's timers)
                 server_dup: if seed % 5 == 1 && blocks <= 3 && blocks >= 1 && seed % 3 == 0 { 254 } else if seed % 5 == 1 && blocks <= 12 { [1u8, 2, 3, 10][(seed / 5 % 4) as usize] } else { 0 },
+                name_idx: if seed % 3 == 2 { (seed / 3 % 7) as u8 } else { 0 },
             }
         })
         .boxed()
@@ -335,11 +344,12 @@ pub fn wrap_cases() -> Vec<Case> {
             stale_dest: false,
             keep: false,
             server_dup: 0,
+            name_idx: 0,
         });
     }
     // exactly 65536 blocks (the block count itself wraps a 16-bit counter)
     for upload in [true, false] {
-        out.push(Case { single: false, ipv6: false, upload, style: Style::Plain, blk: 8, ws: 64, timeout: 2, len: 65535 * 8 + 5, refusal: Refusal::None, abs_rd: true, seed: 16, stale_dest: false, keep: false, server_dup: 0 });
+        out.push(Case { single: false, ipv6: false, upload, style: Style::Plain, blk: 8, ws: 64, timeout: 2, len: 65535 * 8 + 5, refusal: Refusal::None, abs_rd: true, seed: 16, stale_dest: false, keep: false, server_dup: 0, name_idx: 0 });
     }
     out
 }
@@ -355,7 +365,7 @@ fn grid() -> Vec<Case> {
             }
             for upload in [false, true] {
                 for single in [false, true] {
-                    out.push(Case { single, ipv6: false, upload, style: Style::Plain, blk, ws, timeout: 3, len, refusal: Refusal::None, abs_rd: false, seed: 1400 + len as u64, stale_dest: false, keep: false, server_dup: 0 });
+                    out.push(Case { single, ipv6: false, upload, style: Style::Plain, blk, ws, timeout: 3, len, refusal: Refusal::None, abs_rd: false, seed: 1400 + len as u64, stale_dest: false, keep: false, server_dup: 0, name_idx: ((len + blk) % 7) as u8 });
                 }
             }
         }
@@ -364,7 +374,7 @@ fn grid() -> Vec<Case> {
 }
 
 pub fn run(ctx: &Ctx) {
-    ctx.set_rule("the real tftpc is run against the real tftpd. Deterministic grid: 9 sizes around block/window boundaries x 6 (blksize, windowsize) pairs x direction x port mode. Random: {download, upload} x {single, multi port} x {IPv4, IPv6 loopback if available} x {plain, nested, Windows-style path} x blksize 8..65464 x windowsize 1..65535 x timeout 1..255 x file sizes {0, 1, blk-1, blk, blk+1, W*blk, (W+1)*blk, 2W*blk+r, random} (one burst kept below 100 KB), x server --duplicate-packets {0,1,2,3,10} x client --keep-on-error x an older, longer file at the destination, plus refusals (missing file, existing file without overwrite, read-only server), plus two >65535-block transfers at blksize 8. Oracle after tftpc exits: byte-identical files on both sides; a download is stored at <receive-directory>/<basename>, an upload at <server receive dir>/<basename>; on refusal no file appears on the client side, the server's file is untouched and tftpc's stderr reports the error; tftpc ends within the watchdog (40 s, 120 s for the long transfers). Non-trivial = non-default options or >= 2 blocks; distinct = distinct cases. Failures are re-run once in isolation.");
+    ctx.set_rule("the real tftpc is run against the real tftpd. Deterministic grid: 9 sizes around block/window boundaries x 6 (blksize, windowsize) pairs x direction x port mode. Random: {download, upload} x {single, multi port} x {IPv4, IPv6 loopback if available} x {plain, nested, Windows-style path} x basenames {lower, UPPER, MiXeD case, several dots, no extension} x blksize 8..65464 x windowsize 1..65535 x timeout 1..255 x file sizes {0, 1, blk-1, blk, blk+1, W*blk, (W+1)*blk, 2W*blk+r, random} (one burst kept below 100 KB), x server --duplicate-packets {0,1,2,3,10} x client --keep-on-error x an older, longer file at the destination, plus refusals (missing file, existing file without overwrite, read-only server), plus two >65535-block transfers at blksize 8. Oracle after tftpc exits: byte-identical files on both sides; a download is stored at <receive-directory>/<basename>, an upload at <server receive dir>/<basename>; on refusal no file appears on the client side, the server's file is untouched and tftpc's stderr reports the error; tftpc ends within the watchdog (40 s, 120 s for the long transfers). Non-trivial = non-default options or >= 2 blocks; distinct = distinct cases. Failures are re-run once in isolation.");
     ctx.assume("absolute local paths for tftpc -u are outside the generator (the client opens them relative to its cwd; the property quantifies over relative, nested and Windows-style paths)");
     ctx.assume("windowsize x blksize above the loopback socket buffer is exercised in the simulator and by C09's model client with an enlarged receive buffer, not with tftpc (kernel drops would make the run depend on timing)");
     let dirs = DirPool::new(ctx, "c14");
